@@ -47,6 +47,13 @@ func algForKey(keyID string) string {
 		return "ES384"
 	case strings.HasPrefix(keyID, "ec521"):
 		return "ES512"
+	// unsupported keys: the closest algorithm, so that a genuinely valid signature exists for it
+	case strings.HasPrefix(keyID, "rsa1024"):
+		return "PS256"
+	case strings.HasPrefix(keyID, "ec224"):
+		return "ES256"
+	case strings.HasPrefix(keyID, "ed"):
+		return "EdDSA"
 	}
 	return ""
 }
@@ -689,6 +696,16 @@ func submitJwsBytes(r *Runner, envBytes []byte, class, id string, tags []string)
 		chain = absChainWith(certs, dersI)
 	}
 	c.In = map[string]any{"env": env, "chain": chain, "rawEmpty": len(envBytes) == 0}
+	// an extended attribute whose JSON number float64 cannot hold exactly (recorded finding F3b)
+	if pm, ok := env["prot"].(map[string]any)["members"].([]any); ok {
+		for _, m := range pm {
+			mm := m.(map[string]any)
+			if mm["decoded"] != mm["exact"] && foldTwin(mm["key"].(string)) == nil && !isJwsHeaderKey(mm["key"].(string)) {
+				c.Tags = append(c.Tags, "jws-attr-number-not-exact-in-float64")
+				break
+			}
+		}
+	}
 	tok := func(v any) string { return canonAny(v) }
 	impl["verify"] = readOutcome(e.Verify, dersI, tok)
 	impl["content"] = readOutcome(e.Content, dersI, tok)
@@ -800,4 +817,13 @@ func stripInfo(m map[string]any) string {
 		out[k] = v
 	}
 	return canonAny(out)
+}
+
+func isJwsHeaderKey(k string) bool {
+	for _, h := range jwsHeaderKeyList {
+		if h == k {
+			return true
+		}
+	}
+	return false
 }
